@@ -10,14 +10,22 @@ class ReplayDivergence(RuntimeError):
     pass
 
 
+class HorizonExceeded(BaseException):
+    """Raised inside choose() when an execution makes more draws than the stated horizon (retry loops).
+    BaseException so that `except Exception` clauses in the code under exploration do not swallow it."""
+
+
 class Chooser:
-    def __init__(self, prefix=()):
+    def __init__(self, prefix=(), horizon=None):
+        self.horizon = horizon
         self.prefix = list(prefix)
         self.trace = []   # (n_options, chosen, label)
         self.infos = []   # argument of each draw (distribution handed to the sampler, ...)
 
     def choose(self, n, label=None, info=None):
         i = len(self.trace)
+        if self.horizon is not None and i >= self.horizon:
+            raise HorizonExceeded(f"more than {self.horizon} draws")
         c = self.prefix[i] if i < len(self.prefix) else 0
         if n <= 0:
             raise ReplayDivergence(f"choice point {label} with no options")
@@ -28,7 +36,7 @@ class Chooser:
         return c
 
 
-def explore(run, bound=None, max_exec=None, check_replay=True):
+def explore(run, bound=None, max_exec=None, check_replay=True, horizon=None):
     """Yield (choices, trace, infos, result) for every execution. `bound` = max number of non-default answers."""
     stack = [[]]
     n = 0
@@ -36,13 +44,19 @@ def explore(run, bound=None, max_exec=None, check_replay=True):
     capped = False
     while stack:
         prefix = stack.pop()
-        ch = Chooser(prefix)
-        res = run(ch)
+        ch = Chooser(prefix, horizon)
+        try:
+            res = run(ch)
+        except HorizonExceeded:
+            res = "HORIZON"
         if [t[1] for t in ch.trace[:len(prefix)]] != list(prefix):
             raise ReplayDivergence("prefix not replayed")
         if first and check_replay:
-            ch2 = Chooser(prefix)
-            res2 = run(ch2)
+            ch2 = Chooser(prefix, horizon)
+            try:
+                res2 = run(ch2)
+            except HorizonExceeded:
+                res2 = "HORIZON"
             if ch2.trace != ch.trace or repr(res2) != repr(res):
                 raise ReplayDivergence(f"same schedule, different observation: {res!r} vs {res2!r}")
             first = False
@@ -69,3 +83,5 @@ def sequences(n_options, length):
     """index -> tuple decoding helper: all sequences of `length` draws over n_options, as one choice point."""
     import itertools
     return list(itertools.product(range(n_options), repeat=length))
+
+
